@@ -426,7 +426,13 @@ class SiteAnalysis:
                 continue
             if self.root_is_iteration_local(fn, a['pl']['l'], blocks, loop_mode):
                 continue
-            self.sinks.add(classify_mutator(cs, ty))
+            sink = classify_mutator(cs, ty)
+            if sink.startswith('free:') and name in ('insert', 'entry') and len(t['args']) >= 3 - (name == 'entry') \
+                    and sink.split(':')[1].split('::')[0] in ('HashMap', 'BTreeMap', 'Map', 'IndexMap'):
+                kc = map_key_class(self.prog, fn, t['args'][1])
+                if kc != 'elemkey':
+                    sink = 'mapkey-%s:%s' % (kc.replace(' ', '_'), sink[5:])
+            self.sinks.add(sink)
 
 
     # ---- verdict ---------------------------------------------------------------------
@@ -444,6 +450,77 @@ class SiteAnalysis:
 
 PURE_DYN_TRAITS = ('RTObject', 'AsAny', 'IntoAny', 'Any', 'Display', 'Debug')
 _writes_cache = {}
+
+
+INJECTIVE_STEPS = {'clone', 'to_string', 'to_owned', 'deref', 'borrow', 'as_str', 'as_ref', 'into', 'copied', 'cloned',
+                   'as_deref', 'unwrap', 'from', 'to_vec', 'into_iter', 'iter'}
+
+
+def map_key_class(prog, fn, op, depth=0, pending=None, is_closure_elem=None):
+    """Is the key operand of a map insert the WHOLE key of the iterated hash element (possibly cloned / converted by an
+    injective std step)?  -> 'elemkey' or 'derived:<why>'.
+    Inserting under anything else (a projection of the key, the value, an outer variable, a computed name) can collide
+    for two elements, and then the last one in hash order wins."""
+    pending = list(pending or [])
+    if depth > 30:
+        return 'derived:deep'
+    if op['k'] == 'const':
+        return 'derived:constant key'
+    if op['k'] not in ('copy', 'move'):
+        return 'derived:' + op['k']
+    pl = op['pl']
+    pending = [pe for pe in pl.get('p', [])] + pending
+    l = pl['l']
+    d = du(fn)
+    defs = [x for x in d.defs.get(l, []) if x['kind'] in ('assign', 'call')]
+    if 1 <= l <= d.argc and not defs:
+        if fn.kind == 'closure' and l >= 2:
+            return _elem_projection(fn.local_ty(l), pending, param=True)
+        return 'derived:parameter'
+    if len(defs) != 1:
+        return 'derived:multi-def local'
+    df = defs[0]
+    if df['kind'] == 'assign':
+        rv = df['rv']
+        if rv['k'] in ('use', 'cast'):
+            return map_key_class(prog, fn, rv['op'], depth + 1, pending)
+        if rv['k'] in ('ref', 'rawptr'):
+            return map_key_class(prog, fn, {'k': 'copy', 'pl': rv['pl']}, depth + 1, pending)
+        if rv['k'] == 'agg' and rv.get('ak') == 'tuple' and pending and pending[0]['k'] == 'field':
+            i = pending[0]['i']
+            if i < len(rv['ops']):
+                return map_key_class(prog, fn, rv['ops'][i], depth + 1, pending[1:])
+        return 'derived:built by ' + rv['k']
+    t = df['term']
+    cs = callee_short(t)
+    name = cs.rsplit('::', 1)[-1]
+    if name == 'next' and (t['f'].get('trait') or '').endswith('iterator::Iterator'):
+        return _elem_projection(t.get('dty', ''), pending, param=False)
+    if name in INJECTIVE_STEPS and (callee(t) not in prog.fns or cs.endswith(' as Clone>::clone')) and t['args']:
+        return map_key_class(prog, fn, t['args'][0], depth + 1, [pe for pe in pending if pe['k'] == 'deref'] if False else pending)
+    return 'derived:via ' + cs
+
+
+def _elem_projection(ty, pending, param):
+    """pending projections applied to the iteration element (Option<elem> from next(), or the closure parameter)."""
+    proj = [pe for pe in pending if pe['k'] not in ('deref',)]
+    if not param:
+        # Option<elem>: downcast Some, field 0
+        if len(proj) < 2 or proj[0]['k'] != 'downcast' or proj[1]['k'] != 'field' or proj[1]['i'] != 0:
+            return 'derived:unusual use of next()'
+        proj = proj[2:]
+        inner = ty[ty.find('<') + 1:ty.rfind('>')] if '<' in ty else ty
+    else:
+        inner = ty
+    is_pair = inner.strip().startswith('(')
+    if not proj:
+        return 'elemkey' if not is_pair else 'derived:whole (key, value) pair'
+    if proj[0]['k'] == 'field' and 'adt' not in proj[0]:
+        if is_pair and proj[0]['i'] == 0 and len(proj) == 1:
+            return 'elemkey'
+        if is_pair and proj[0]['i'] == 1:
+            return 'derived:the value, not the key'
+    return 'derived:a projection of the element (%s)' % '.'.join(str(pe.get('n', pe.get('i'))) for pe in proj)
 
 
 def classify_mutator(cs, ty):
